@@ -149,13 +149,18 @@ def run(ctx: Context):
             if kf is None:
                 raise AnalysisError("cannot resolve the sort key %s of get_servers_for_psi" % src(fn, kexpr))
             r.site(kf, None, "sort key")
+            # free variables of the key function that are plain copies of the psi parameter in the enclosing function
+            ren = {kp: "server"}
+            for nm in all_defs(fn):
+                if nm != psi and nm not in kf.params and fnorm.norm(n, ast.Name(id=nm, ctx=ast.Load())) == psi:
+                    ren[nm] = psi
             # `preferred`: a free variable of the key function, defined once in get_servers_for_psi
             for (kn, kv) in _ret_values(kf):
                 if kn is not None:
                     kv = FlowNorm(kf).resolve(kn, kv)
-                    knrm = FlowNorm(kf, rename={kp: "server"}).at(kn)
+                    knrm = FlowNorm(kf, rename=ren).at(kn)
                 else:
-                    knrm = N(None, rename={kp: "server"}, depth=0)
+                    knrm = N(None, rename=ren, depth=0)
                 kloc = kf.loc(kn.ast if kn is not None else None)
                 if not (isinstance(kv, ast.Tuple) and len(kv.elts) == 2):
                     r.violation(kf, kloc, "sort key is %s, not the pair (not-preferred, permuted hash)" % src(kf, kv))
@@ -456,7 +461,11 @@ def run(ctx: Context):
             for n in rets:
                 v = n.ast.value
                 vs = fnorm.norm(n, v) if v is not None else "None"
-                if vs in (vattr + "()", "bool(%s())" % vattr):
+                rv = fnorm.resolve(n, v) if v is not None else None
+                if isinstance(rv, ast.Call) and call_name(rv) == "bool" and len(rv.args) == 1:
+                    rv = fnorm.resolve(n, rv.args[0])
+                if isinstance(rv, ast.Call) and not rv.args and not rv.keywords \
+                        and fnorm.norm(n, fnorm.resolve(n, rv.func)) == vattr:
                     continue
                 if isinstance(fnorm.resolve(n, v), ast.Constant) and fnorm.resolve(n, v).value is True:
                     bad = find_path_avoiding(cfg, lambda x, _n=n: x is _n, gate_edge=unconfigured)
